@@ -24,6 +24,11 @@ class Holder(State):
     b: Missing = MISSING
 
 
+class Retry(State):            # an attribute that may be missing but has an ordinary default
+    attempts: int | Missing = 3
+    note: str | Missing = MISSING
+
+
 def problems():
     out = []
 
@@ -53,6 +58,17 @@ def problems():
                 out.append(f"{label} raised {e!r}"[:200])
     except Exception as e:  # noqa
         out.append(f"obtaining a missing value raised {e!r}"[:200])
+    for r in (Retry(), Retry(attempts=MISSING), Retry(attempts=5, note="x"), Retry(attempts=MISSING, note=MISSING)):
+        for label, f in (("copy", copy.copy), ("deepcopy", copy.deepcopy), ("copy inside a list", lambda x: copy.copy([x])[0]),
+                         ("deepcopy inside a dict", lambda x: copy.deepcopy({"k": (x,)})["k"][0])):
+            try:
+                c = f(r)
+            except Exception as e:  # noqa
+                out.append(f"{label} of {r} raised {e!r}"[:200])
+                continue
+            for name in ("attempts", "note"):
+                if (getattr(c, name) is MISSING) != (getattr(r, name) is MISSING) or (getattr(c, name) is not MISSING and getattr(c, name) != getattr(r, name)):
+                    out.append(f"{label} of {r}: attribute {name} is {getattr(c, name)!r}, the original holds {getattr(r, name)!r}")
     if bool(MISSING):
         out.append("MISSING is truthy")
     for other in (None, False, 0, "", (), [], {}, AlwaysEq(), object()):
